@@ -194,10 +194,9 @@ func (stack *Stack) TruncateToSize(newsize int) {
 		newsize = 0
 	}
 	if newsize > len(stack.elements) {
-		el := make([]StackElem, newsize)
-		copy(el, stack.elements)
-		stack.elements = el
-		stack.tos = newsize - 1
+		// a truncation never grows the stack: padding it with nil
+		// elements made the typed accessors (GetExpressions, PopExpr,
+		// PopAddr) panic on their type assertions later on.
 		return
 	}
 	for i := newsize; i < len(stack.elements); i++ {
